@@ -34,6 +34,9 @@ func ErrorByName(n string) error {
 
 var ErrorNames = []string{"unexpected-eof", "closed-pipe", "reset", "custom", "wrapped-eof"}
 
+// WriteErrorNames adds io.EOF itself: for a writer it is just another error value.
+var WriteErrorNames = []string{"unexpected-eof", "closed-pipe", "reset", "custom", "wrapped-eof", "eof"}
+
 // Schedule says how many bytes each successive Read may return. Chunks[i] bounds the
 // i-th Read (0 = a (0,nil) stall); afterwards every Read is bounded by Repeat (0 = no
 // bound: as much as asked and available).
